@@ -1,0 +1,360 @@
+//go:build verif
+
+package mr
+
+import (
+	"context"
+	"encoding/json"
+	"errors"
+	"fmt"
+	"math/rand"
+	"runtime"
+	"strings"
+	"sync"
+	"testing"
+	"time"
+
+	"github.com/gotid/god/internal/verifdrv"
+)
+
+// Thin interpreter for the C07 correspondence: runs one scripted MapReduce-family call and reports
+// the trace of callback events (global order = order of append under one mutex), the outcome of the
+// call and the number of goroutines left over. No oracle logic here.
+
+type verifAct struct {
+	Op string `json:"op"` // write | cancel | cancelnil | panic | waitret | ctxcancel
+	K  int    `json:"k"`
+}
+
+type verifItem struct {
+	Acts []verifAct `json:"acts"`
+}
+
+type verifCase struct {
+	Fn      string      `json:"fn"` // MapReduce | MapReduceVoid | MapReduceChan | ForEach | Finish | FinishVoid
+	Workers int         `json:"workers"`
+	NoOpt   bool        `json:"noopt"` // do not pass WithWorkers (defaultWorkers)
+	Items   []verifItem `json:"items"`
+	GPanic  int         `json:"gpanic"` // -1: none
+	RTake   int         `json:"rtake"`  // -1: range over the pipe
+	RAfter  []verifAct  `json:"rafter"` // write | panic | sleep (ms)
+	Ctx     string      `json:"ctx"`    // none | pre | live
+	Seed    int64       `json:"seed"`
+}
+
+type verifErr struct{ code int }
+
+func (e verifErr) Error() string { return fmt.Sprintf("verif-err-%d", e.code) }
+
+type verifPanic struct{ code int }
+
+type verifVal struct{ I, K int }
+
+type verifLog struct {
+	mu  sync.Mutex
+	evs [][]any
+	rng *rand.Rand
+}
+
+func (l *verifLog) add(kind string, args ...int) {
+	l.mu.Lock()
+	ev := make([]any, 0, 1+len(args))
+	ev = append(ev, kind)
+	for _, a := range args {
+		ev = append(ev, a)
+	}
+	l.evs = append(l.evs, ev)
+	l.mu.Unlock()
+}
+
+// jitter perturbs the schedule (seeded; which goroutine draws which number is up to the scheduler).
+func (l *verifLog) jitter() {
+	l.mu.Lock()
+	r := l.rng.Intn(100)
+	n := l.rng.Intn(40)
+	l.mu.Unlock()
+	switch {
+	case r < 45:
+	case r < 80:
+		for i := 0; i <= n%3; i++ {
+			runtime.Gosched()
+		}
+	default:
+		time.Sleep(time.Duration(1+n) * time.Microsecond)
+	}
+}
+
+var (
+	verifHangs int
+	verifLeaks int
+)
+
+func verifOutcome(v any, err error, void bool) map[string]any {
+	switch {
+	case err == nil && void:
+		return map[string]any{"kind": "nil"}
+	case err == nil:
+		if k, ok := v.(int); ok {
+			return map[string]any{"kind": "ret", "v": k}
+		}
+		return map[string]any{"kind": "other", "s": fmt.Sprint(v)}
+	case errors.Is(err, ErrReduceNoOutput):
+		return map[string]any{"kind": "nooutput"}
+	case errors.Is(err, ErrCancelWithNil):
+		return map[string]any{"kind": "err", "e": -1}
+	case errors.Is(err, context.DeadlineExceeded):
+		return map[string]any{"kind": "err", "e": -2}
+	default:
+		var ve verifErr
+		if errors.As(err, &ve) {
+			return map[string]any{"kind": "err", "e": ve.code}
+		}
+		return map[string]any{"kind": "other", "s": err.Error()}
+	}
+}
+
+func verifPanicOutcome(p any) map[string]any {
+	switch x := p.(type) {
+	case verifPanic:
+		return map[string]any{"kind": "panic", "p": x.code}
+	case string:
+		if x == "多次写入聚合器" {
+			return map[string]any{"kind": "twice"}
+		}
+		return map[string]any{"kind": "panic", "p": -9, "s": "string"}
+	case error:
+		if strings.Contains(x.Error(), "send on closed channel") {
+			return map[string]any{"kind": "panic", "p": -1}
+		}
+		return map[string]any{"kind": "panic", "p": -9, "s": "runtime"}
+	default:
+		return map[string]any{"kind": "panic", "p": -9, "s": "other"}
+	}
+}
+
+func verifRun(c verifCase) map[string]any {
+	lg := &verifLog{rng: rand.New(rand.NewSource(c.Seed))}
+	retCh := make(chan struct{})
+	hangLimit := 4 * time.Second
+	if verifHangs >= 4 {
+		hangLimit = 400 * time.Millisecond
+	}
+	settleLimit := 1500 * time.Millisecond
+	if verifLeaks+verifHangs >= 8 {
+		settleLimit = 150 * time.Millisecond
+	}
+
+	ctx := context.Background()
+	cancelCtx := func() {}
+	if c.Ctx == "pre" || c.Ctx == "live" {
+		ctx, cancelCtx = context.WithCancel(context.Background())
+		if c.Ctx == "pre" {
+			cancelCtx()
+		}
+	}
+	var opts []Option
+	if !c.NoOpt {
+		opts = append(opts, WithWorkers(c.Workers))
+	}
+	if c.Ctx != "none" {
+		opts = append(opts, WithContext(ctx))
+	}
+
+	runActs := func(i int, writer Writer, cancel func(error)) {
+		lg.add("ms", i)
+		defer lg.add("me", i)
+		for _, a := range c.Items[i].Acts {
+			lg.jitter()
+			switch a.Op {
+			case "write":
+				lg.add("wr", i, a.K)
+				if writer != nil {
+					writer.Write(verifVal{i, a.K})
+				}
+				lg.add("wd", i, a.K)
+			case "cancel":
+				lg.add("cb", i, a.K)
+				if cancel != nil {
+					cancel(verifErr{a.K})
+				}
+				lg.add("ce", i)
+			case "cancelnil":
+				lg.add("cb", i, -1)
+				if cancel != nil {
+					cancel(nil)
+				}
+				lg.add("ce", i)
+			case "panic":
+				lg.add("pn", i, a.K)
+				panic(verifPanic{a.K})
+			case "waitret":
+				lg.add("wb", i)
+				select {
+				case <-retCh:
+				case <-time.After(hangLimit + time.Second):
+					lg.add("wto", i)
+				}
+				lg.add("we", i)
+			case "ctxcancel":
+				lg.add("cx", i) // before the call: the caller may return as soon as the context is done
+				cancelCtx()
+			}
+		}
+	}
+	generate := func(source chan<- any) {
+		for i := range c.Items {
+			lg.jitter()
+			source <- i
+			lg.add("sent", i)
+		}
+		if c.GPanic >= 0 {
+			lg.add("gp", c.GPanic)
+			panic(verifPanic{c.GPanic})
+		}
+	}
+	mapper := func(item any, writer Writer, cancel func(error)) {
+		runActs(item.(int), writer, cancel)
+	}
+	reduceBody := func(pipe <-chan any, writer Writer) {
+		for n := 0; c.RTake < 0 || n < c.RTake; n++ {
+			v, ok := <-pipe
+			if !ok {
+				break
+			}
+			vv := v.(verifVal)
+			lg.add("rr", vv.I, vv.K)
+			lg.jitter()
+		}
+		for _, a := range c.RAfter {
+			lg.jitter()
+			switch a.Op {
+			case "write":
+				lg.add("rw", a.K)
+				if writer != nil {
+					writer.Write(a.K)
+				}
+				lg.add("rd", a.K)
+			case "panic":
+				lg.add("rp", a.K)
+				panic(verifPanic{a.K})
+			case "sleep": // gate for the known-finding replay: let the caller finish its re-check first
+				time.Sleep(time.Duration(a.K) * time.Millisecond)
+			}
+		}
+		lg.add("re")
+	}
+	reducer := func(pipe <-chan any, writer Writer, cancel func(error)) { reduceBody(pipe, writer) }
+
+	call := func() map[string]any {
+		switch c.Fn {
+		case "MapReduce":
+			v, err := MapReduce(generate, mapper, reducer, opts...)
+			return verifOutcome(v, err, false)
+		case "MapReduceChan":
+			source := make(chan any)
+			go func() {
+				defer close(source)
+				generate(source)
+			}()
+			v, err := MapReduceChan(source, mapper, reducer, opts...)
+			return verifOutcome(v, err, false)
+		case "MapReduceVoid":
+			err := MapReduceVoid(generate, mapper, func(pipe <-chan any, cancel func(error)) { reduceBody(pipe, nil) }, opts...)
+			return verifOutcome(nil, err, true)
+		case "ForEach":
+			ForEach(generate, func(item any) { runActs(item.(int), nil, nil) }, opts...)
+			return map[string]any{"kind": "nil"}
+		case "Finish":
+			fns := make([]func() error, len(c.Items))
+			for i := range c.Items {
+				i := i
+				fns[i] = func() (err error) {
+					runActs(i, nil, func(e error) { err = e })
+					return
+				}
+			}
+			return verifOutcome(nil, Finish(fns...), true)
+		case "FinishVoid":
+			fns := make([]func(), len(c.Items))
+			for i := range c.Items {
+				i := i
+				fns[i] = func() { runActs(i, nil, nil) }
+			}
+			FinishVoid(fns...)
+			return map[string]any{"kind": "nil"}
+		}
+		return map[string]any{"kind": "other", "s": "unknown fn"}
+	}
+
+	// goroutine baseline (let leftovers of earlier cases settle first)
+	before := runtime.NumGoroutine()
+	for i := 0; i < 50; i++ {
+		runtime.Gosched()
+		n := runtime.NumGoroutine()
+		if n == before {
+			break
+		}
+		before = n
+		time.Sleep(200 * time.Microsecond)
+	}
+
+	resCh := make(chan map[string]any, 1)
+	go func() {
+		var out map[string]any
+		defer func() {
+			if p := recover(); p != nil {
+				out = verifPanicOutcome(p)
+			}
+			lg.add("ret")
+			resCh <- out
+		}()
+		out = call()
+	}()
+
+	var outcome map[string]any
+	timer := time.NewTimer(hangLimit)
+	select {
+	case outcome = <-resCh:
+		timer.Stop()
+	case <-timer.C:
+		outcome = map[string]any{"kind": "hang"}
+		verifHangs++
+	}
+	close(retCh)
+	if outcome["kind"] == "hang" {
+		cancelCtx()
+	}
+
+	// settle loop: every goroutine started by the call must be gone once the generator has returned
+	deadline := time.Now().Add(settleLimit)
+	after := runtime.NumGoroutine()
+	for after > before && time.Now().Before(deadline) {
+		runtime.Gosched()
+		time.Sleep(100 * time.Microsecond)
+		after = runtime.NumGoroutine()
+	}
+	cancelCtx()
+	leaked := after - before
+	if leaked < 0 {
+		leaked = 0
+	}
+	if leaked > 0 && outcome["kind"] != "hang" {
+		verifLeaks++
+	}
+
+	lg.mu.Lock()
+	evs := lg.evs
+	lg.evs = nil // late events of leaked goroutines are not part of the observation
+	lg.mu.Unlock()
+	return map[string]any{"outcome": outcome, "trace": evs, "leaked": leaked}
+}
+
+func TestVerifDriver(t *testing.T) {
+	verifdrv.Run(t, func(raw json.RawMessage) any {
+		var c verifCase
+		if err := json.Unmarshal(raw, &c); err != nil {
+			return map[string]any{"error": err.Error()}
+		}
+		return verifRun(c)
+	})
+}
